@@ -65,9 +65,15 @@ def namespace(c, args):
     for name, src in c.get('pyfuncs', {}).items():
         exec(src, ns)
     ns.update({k: v for k, v in args.items() if '.' not in k})
-    selfattrs = {k.split('.', 1)[1]: v for k, v in args.items() if k.startswith('self.')}
-    if selfattrs:
-        ns['self'] = type('Self', (), selfattrs)()
+    # object-valued arguments arrive as "name.attribute" entries
+    objs = {}
+    for k, v in args.items():
+        if '.' in k:
+            o, a = k.split('.', 1)
+            objs.setdefault(o, {})[a] = v
+    for o, attrs in objs.items():
+        ns[o] = type('Obj_' + o, (), dict(attrs))()
+    ns.setdefault('pow10', lambda e: 10.0 ** e)
     return ns
 
 
